@@ -221,6 +221,10 @@ pub fn plan(prop: &str) -> Vec<Item> {
             v.push(it("sync_states", "pool=1,st=5,n=1", Some(2), 3));
             v.push(it("sync_states", "pool=0,st=5,n=2", Some(2), 4));
             v.push(it("excl_susp", "pool=1,kind=0", Some(2), 3));
+            // generated programs with gated operations, every waker ever handed out fired once more (stale wake-ups)
+            v.extend(prog_pairs(&["FDa", "FDd", "FSa", "AF", "FDx", "FSx"], "pool=1,stale=1", false, Some(1), 2, 1));
+            v.extend(prog_pairs(&["FDa", "FDd", "FSa", "AF", "FDx", "FSx"], "pool=2,stale=1", false, None, 1, 1));
+            v.extend(prog_pairs(&["FDd", "AF", "FDx"], "pool=1,busy=1,stale=1", false, None, 1, 1));
         }
         "C07" => {
             for mode in 0..5 {
@@ -444,7 +448,7 @@ pub fn owners(scenario: &str, part: &str) -> Vec<&'static str> {
         "pipe_drop_output" => vec!["C16"],
         "f2_dormant_race" | "desync_then_sync" | "stale_entry" => vec!["C03"],
         "prog" => {
-            let mut v = vec!["C03"];
+            let mut v = vec!["C03", "C06"];
             if part.contains("in:sync") || part.contains("in:fd.sync") {
                 v.push("C04");
             }
